@@ -59,6 +59,19 @@ func Judge(docText []byte, relaxEmptyArrays bool) (key, msg string) {
 		}
 		return "C07/roundtrip"
 	}
+	// (2b) a result is a value: converting another message afterwards (as the next message on this
+	// or any other connection does) must not change what an earlier conversion returned
+	backBefore := append([]byte(nil), back...)
+	wireBefore := string(append([]byte(nil), wire...))
+	for _, canary := range canaries(len(docText)) {
+		w2, err := ship.JsonIntoEEBUSJson(canary)
+		if err == nil {
+			_ = ship.JsonFromEEBUSJson([]byte(w2))
+		}
+	}
+	if string(back) != string(backBefore) || wire != wireBefore {
+		return "C07/result-changed-by-later-conversion", fmt.Sprintf("the result of a conversion changed when other documents were converted afterwards: doc=%q back was %q, is now %q", docText, backBefore, back)
+	}
 	rt, err := Parse(back)
 	if err != nil {
 		return diag(), fmt.Sprintf("round trip result is not JSON: %v; wire=%q back=%q", err, wire, back)
@@ -75,4 +88,20 @@ func Judge(docText []byte, relaxEmptyArrays bool) (key, msg string) {
 		return diag(), fmt.Sprintf("round trip changed the document: doc=%q wire=%q back=%q", docText, wire, back)
 	}
 	return "", ""
+}
+
+// canaries: other documents of about the same and of other sizes than the document under test.
+func canaries(n int) [][]byte {
+	pad := func(k int) string {
+		b := make([]byte, k)
+		for i := range b {
+			b[i] = "canary-"[i%7]
+		}
+		return string(b)
+	}
+	return [][]byte{
+		[]byte(`{"c":[{"a":1},{"b":"` + pad(n) + `"}]}`),
+		[]byte(`{"c":{"d":{"e":"` + pad(n/2+1) + `"}},"f":[1,2,3]}`),
+		[]byte(`{"z":"` + pad(3*n+64) + `"}`),
+	}
 }
